@@ -421,21 +421,35 @@ func checkC05(c *Ctx) {
 	}
 	// (3) construction sites
 	sites := callSites(shipped, isStatic(G, "newResponseWriter"))
+	lockField := ""
 	for _, s := range sites {
 		args := s.Common().Args
 		f := s.Parent()
 		key := fname(f) + ": newResponseWriter(writer, lock)"
 		wbase, okw := fieldLoad(args[0], G, "conn", "writer")
-		mbase, okm := fieldAddr(args[1], G, "conn", "writerMu")
+		// the lock: the address of a sync.Mutex field of the conn (today conn.writerMu), the same field at every site
+		var mbase ssa.Value
+		okm := false
+		if fa, isFA := an.Strip(args[1]).(*ssa.FieldAddr); isFA && an.TypeIs(fa.X.Type(), G, "conn") {
+			if ft := fa.Type().(*types.Pointer).Elem(); an.TypeIs(ft, "sync", "Mutex") && !isPointer(ft) {
+				mbase, okm = fa.X, true
+				if lockField == "" {
+					lockField = an.FieldAddrName(fa)
+				} else if lockField != an.FieldAddrName(fa) {
+					R.Fail("C05-shared", key, c.pos(s), "lock argument is &conn."+an.FieldAddrName(fa)+" here but &conn."+lockField+" at another construction site: responses of one connection would not share one lock")
+					continue
+				}
+			}
+		}
 		switch {
 		case !okw:
 			R.Fail("C05-shared", key, c.pos(s), "writer argument is not a load of conn.writer (got "+an.Path(args[0])+")")
 		case !okm:
-			R.Fail("C05-shared", key, c.pos(s), "lock argument is not &conn.writerMu (got "+an.Path(args[1])+"): responses of one connection would not share one lock")
+			R.Fail("C05-shared", key, c.pos(s), "lock argument is not the address of a sync.Mutex field of the conn (got "+an.Path(args[1])+"): responses of one connection would not share one lock")
 		case an.Strip(wbase) != an.Strip(mbase):
 			R.Fail("C05-shared", key, c.pos(s), "writer and lock belong to different conn values")
 		default:
-			R.OK("C05-shared", key, c.pos(s), "writer = "+an.Path(args[0])+", lock = &"+an.Path(mbase)+".writerMu of the same conn")
+			R.OK("C05-shared", key, c.pos(s), "writer = "+an.Path(args[0])+", lock = &"+an.Path(mbase)+"."+lockField+" of the same conn")
 		}
 	}
 	R.Floor("C05-shared", 2)
@@ -443,9 +457,9 @@ func checkC05(c *Ctx) {
 	if ct := c.P.NamedType(G, "conn"); ct != nil {
 		st := ct.Underlying().(*types.Struct)
 		for i := 0; i < st.NumFields(); i++ {
-			if st.Field(i).Name() == "writerMu" {
-				R.Check(an.TypeIs(st.Field(i).Type(), "sync", "Mutex") && !isPointer(st.Field(i).Type()), "C05-shared", "conn.writerMu is a sync.Mutex value field", c.P.Pos(st.Field(i).Pos()),
-					"one mutex per connection", "conn.writerMu is not a by-value sync.Mutex")
+			if st.Field(i).Name() == lockField {
+				R.Check(an.TypeIs(st.Field(i).Type(), "sync", "Mutex") && !isPointer(st.Field(i).Type()), "C05-shared", "conn."+lockField+" is a sync.Mutex value field", c.P.Pos(st.Field(i).Pos()),
+					"one mutex per connection", "conn."+lockField+" is not a by-value sync.Mutex")
 			}
 		}
 		for _, f := range shipped {
